@@ -459,6 +459,12 @@ func RunEngine(t *testing.T, e Engine, seed uint64, thorough bool, resultPath st
 		res.ExcludedPoints = x.ExcludedPoints()
 	}
 
+	if x, ok := e.(interface{ Extra() map[string]any }); ok && replay == nil {
+		for k, v := range x.Extra() {
+			res.Extra[k] = v
+		}
+	}
+
 	if x, ok := e.(interface{ Notes() []string }); ok {
 		res.Notes = append(res.Notes, x.Notes()...)
 	}
